@@ -476,6 +476,8 @@ class Check:
             ok = False
             if 'error' in rp:
                 inconclusive.append('replay of %s failed to run: %s %s' % (mf, rp['error'], rp.get('raw', '')[-500:]))
+            elif o['kind'] == 'assert' and o['name'] in rp.get('failures', []):
+                ok = True
             elif rp.get('assumeFailed'):
                 inconclusive.append('replay of %s: model violates an assumption natively (encoding mismatch)' % mf)
             elif o['kind'] == 'assert':
